@@ -252,6 +252,113 @@ def wrap_facts(facts, nat, boolean, strlist):
             and bool(re.search(r"if\s+nextpower\s*<=\s*256\s*\{\s*32\s*\}\s*else\s*\{\s*nextpower\s*/\s*8\s*\}", cp)) and "chunk * (((len - 1) / chunk) + 1)" in cp,
             "nostr nip44 v2 calc_padding as transcribed in Model.Wrap.calcPadding")
 
+def restart_facts(facts):
+    """C11: what an `MDK` instance holds in memory (lost when the instance is dropped) and what hydration of the epoch
+    snapshot manager puts back: field lists of `MDK`, `MdkProvider`, `EpochSnapshotManager`, its inner state,
+    `EpochSnapshot`, `MdkSqliteStorage`; the entry `parse_snapshot_name` builds; the snapshot name format; every
+    interior-mutability / static site of the non-test, non-hook code of mdk-core, mdk-storage-traits, mdk-sqlite-storage"""
+    def split_top(body):
+        parts, depth, cur = [], 0, []
+        for ch in body:
+            if ch in "<([{": depth += 1
+            elif ch in ">)]}": depth -= 1
+            if ch == "," and depth == 0:
+                parts.append("".join(cur)); cur = []
+            else:
+                cur.append(ch)
+        parts.append("".join(cur))
+        return [re.sub(r"\s+", " ", x).strip() for x in parts if x.strip()]
+    def braces(src, i, fact):
+        i = src.find("{", i)
+        if i < 0:
+            raise Missing(fact + ":open")
+        depth = 0
+        for j in range(i, len(src)):
+            if src[j] == "{": depth += 1
+            elif src[j] == "}":
+                depth -= 1
+                if depth == 0:
+                    return src[i + 1:j]
+        raise Missing(fact + ":braces")
+    def struct_fields(src, name, fact):
+        m = re.search(r"\bstruct\s+" + re.escape(name) + r"\b[^;{]*\{", src)
+        if not m:
+            raise Missing(fact)
+        out = []
+        for f in split_top(braces(src, m.start(), fact)):
+            f = re.sub(r"#\[[^\]]*\]\s*", "", f)
+            fm = re.fullmatch(r"(?:pub(?:\([^)]*\))?\s+)?(\w+)\s*:\s*(.+)", f)
+            if not fm:
+                raise Missing(fact + ":field:" + f[:30])
+            out.append((fm.group(1), tight(fm.group(2))))
+        if not out:
+            raise Missing(fact + ":empty")
+        return out
+    def tight(x): return re.sub(r"\s*([<>,():\[\]&*?.=!|])\s*", r"\1", re.sub(r"\s+", " ", x)).strip()
+    def pairs(ps): return "[" + ", ".join('("%s", "%s")' % (a.replace('"', "'"), b.replace('"', "'")) for a, b in ps) + "]"
+    def literal_fields(body, ty, fact, which=0):
+        ms = list(re.finditer(r"\b" + re.escape(ty) + r"\s*\{", body))
+        if len(ms) <= which:
+            raise Missing(fact)
+        out = []
+        for f in split_top(braces(body, ms[which].start(), fact)):
+            fm = re.fullmatch(r"(\w+)(?:\s*:\s*(.+))?", f)
+            if not fm:
+                raise Missing(fact + ":field:" + f[:30])
+            out.append((fm.group(1), tight(fm.group(2) or fm.group(1))))
+        return out
+    core_lib = strip_comments(non_test(read("crates/mdk-core/src/lib.rs")))
+    snaps = strip_comments(non_test(read("crates/mdk-core/src/epoch_snapshots.rs")))
+    sql_lib = strip_comments(non_test(read("crates/mdk-sqlite-storage/src/lib.rs")))
+    facts["mdkFields"] = ("List (String × String)", pairs(struct_fields(core_lib, "MDK", "struct:MDK")), "mdk-core lib.rs `pub struct MDK<Storage>`: every field (name, type)")
+    facts["mdkProviderFields"] = ("List (String × String)", pairs(struct_fields(core_lib, "MdkProvider", "struct:MdkProvider")), "mdk-core lib.rs `pub struct MdkProvider<Storage>`: every field")
+    facts["snapshotManagerFields"] = ("List (String × String)", pairs(struct_fields(snaps, "EpochSnapshotManager", "struct:EpochSnapshotManager")), "epoch_snapshots.rs `pub struct EpochSnapshotManager`")
+    facts["snapshotManagerInnerFields"] = ("List (String × String)", pairs(struct_fields(snaps, "EpochSnapshotManagerInner", "struct:EpochSnapshotManagerInner")), "epoch_snapshots.rs `struct EpochSnapshotManagerInner` (behind the manager's mutex)")
+    facts["epochSnapshotFields"] = ("List (String × String)", pairs(struct_fields(snaps, "EpochSnapshot", "struct:EpochSnapshot")), "epoch_snapshots.rs `pub struct EpochSnapshot`")
+    facts["sqliteStorageFields"] = ("List (String × String)", pairs(struct_fields(sql_lib, "MdkSqliteStorage", "struct:MdkSqliteStorage")), "mdk-sqlite-storage lib.rs `pub struct MdkSqliteStorage`")
+    psn = fn_body(snaps, "parse_snapshot_name", "fn:parse_snapshot_name")
+    facts["hydratedEntry"] = ("List (String × String)", pairs(literal_fields(psn, "EpochSnapshot", "hydrated:literal")), "epoch_snapshots.rs parse_snapshot_name: the entry hydration builds (field, expression)")
+    locs = [(m.group(1), tight(m.group(2))) for m in re.finditer(r"\blet\s+(\w+)\s*(?::[^=;]+)?=\s*([^;]+);", psn)]
+    facts["hydratedLocals"] = ("List (String × String)", pairs(locs), "epoch_snapshots.rs parse_snapshot_name: its local bindings (what the entry's fields are read from)")
+    cs = fn_body(snaps, "create_snapshot", "fn:create_snapshot")
+    facts["createdEntry"] = ("List (String × String)", pairs(literal_fields(cs, "EpochSnapshot", "created:literal")), "epoch_snapshots.rs create_snapshot: the entry recorded when a snapshot is taken")
+    fm = re.search(r"format!\s*\(\s*\"(snap[^\"]*)\"\s*,([^;]*?)\)\s*;", cs, re.S)
+    if not fm:
+        raise Missing("snapshot:name-format")
+    facts["snapshotNameFormat"] = ("String", '"%s"' % fm.group(1), "epoch_snapshots.rs create_snapshot: format string of the stored snapshot's name")
+    facts["snapshotNameArgs"] = ("List String", "[" + ", ".join('"%s"' % tight(a) for a in split_top(fm.group(2))) + "]", "epoch_snapshots.rs create_snapshot: what the name is formatted from")
+    # hydration happens at the start of every method of the manager that looks at the queue
+    methods = re.findall(r"\bpub\s+fn\s+(\w+)", snaps)
+    lazy = [m for m in methods if m != "new" and "self.ensure_hydrated(" in fn_body(snaps, m, "fn:" + m)]
+    facts["managerMethods"] = ("List String", "[" + ", ".join('"%s"' % m for m in methods) + "]", "epoch_snapshots.rs: public methods of EpochSnapshotManager")
+    facts["managerMethodsHydrating"] = ("List String", "[" + ", ".join('"%s"' % m for m in lazy) + "]", "epoch_snapshots.rs: the public methods that call ensure_hydrated first")
+    facts["epochSnapshotCreatedAtReads"] = ("Nat", str(len(re.findall(r"\.\s*created_at\b", snaps))),
+                                            "epoch_snapshots.rs (non-test): number of places that READ an entry's `created_at` (the Instant hydration replaces by a placeholder)")
+    # interior mutability / process-wide state anywhere in the shipped code of the three crates
+    sites = []
+    pat = re.compile(r"\b(Mutex|RwLock|RefCell|Cell|UnsafeCell|OnceLock|OnceCell|LazyLock|LazyCell|Lazy|Atomic\w+)\b|\b(thread_local|lazy_static)\s*!|(?<!')\bstatic\s+(?:mut\s+)?(\w+)\s*:\s*([^=;]+)")
+    for crate in ("mdk-core", "mdk-storage-traits", "mdk-sqlite-storage"):
+        root = os.path.join(REPO, "crates", crate, "src")
+        lib = strip_comments(read(f"crates/{crate}/src/lib.rs"))
+        gated = set(re.findall(r"#\[cfg\((?:test|feature\s*=\s*\"(?:verif-hooks|test-utils)\")\)\]\s*(?:#\[[^\]]*\]\s*)*(?:pub\s+)?mod\s+(\w+)\s*;", lib))
+        for d, _, fs in sorted(os.walk(root)):
+            for f in sorted(fs):
+                if not f.endswith(".rs"):
+                    continue
+                rel = os.path.relpath(os.path.join(d, f), os.path.join(REPO, "crates"))
+                top = os.path.relpath(os.path.join(d, f), root).split(os.sep)[0].removesuffix(".rs")
+                if top in gated or f == "tests.rs" or os.sep + "tests" + os.sep in rel:
+                    continue
+                src = strip_comments(non_test(open(os.path.join(d, f), encoding="utf-8").read()))
+                for m in pat.finditer(src):
+                    if m.group(3):
+                        sites.append((rel, "static " + m.group(3) + ":" + tight(m.group(4))))
+                    else:
+                        sites.append((rel, m.group(1) or m.group(2)))
+    facts["interiorMutabilitySites"] = ("List (String × String)", pairs(sorted(set(sites))),
+                                        "every Mutex / RwLock / RefCell / Cell / Once* / Lazy* / Atomic* / static / thread_local! of the non-test, non-verif-hooks source of mdk-core, mdk-storage-traits, mdk-sqlite-storage (file, what)")
+
+
 def main():
     facts = {}      # name -> (lean type, lean value, provenance)
     def nat(name, v, prov): facts[name] = ("Nat", str(v), prov)
@@ -732,6 +839,7 @@ def main():
 
     # ---- outer layer of process_message (C06 wrap / C08 routing; engine `wrap`) ---------------------------
     wrap_facts(facts, nat, boolean, strlist)
+    restart_facts(facts)
 
     # ---- ffi facts (C06, first sentence): tables and parse plans of crates/mdk-uniffi/src/lib.rs ----------
     ffi_rs = strip_comments(non_test(read("crates/mdk-uniffi/src/lib.rs")))
